@@ -275,18 +275,20 @@ TinyC(c) == PedSerCommit(TinyPt(c))
 \* a point on the curve outside the subgroup (the tiny curves have cofactors)
 RECURSIVE FindOutside(_)
 FindOutside(x0) == LET x == FindX(x0, TRUE)  Q == LiftXQuad(x)[2] IN IF IsInf(PMul(N, Q)) THEN FindOutside(Add(x, One)) ELSE Q
-OutsidePt == FindOutside(One)
+\* (guarded: TLC evaluates constant definitions eagerly, and secp256k1 itself has no such point)
+OutsidePt == IF Lt(N, Pow2(16)) THEN FindOutside(One) ELSE Inf
 TinyXs == << Zero, One, Sub(P, One), P, Add(P, One), Max256, FindX(Two, FALSE), OutsidePt[1] >>
 TallyPts == IF Big THEN { 1, 2, 99, 100, 197, 198 } ELSE 1..(NN - 1)
 Lists2 == { << >> } \cup { << a >> : a \in TallyPts } \cup { << a, b >> : a \in TallyPts, b \in TallyPts }
+Lists2s == { l \in Lists2 : Len(l) < 2 \/ l[1] <= l[2] }      \* negative side: unordered pairs
 TinyCases ==
        { << "tcommit", b, v, h >> : b \in TinyBlinds, v \in TinyVals, h \in TinyHs }
-  \cup { << "ttally", ps, ns >> : ps \in Lists2, ns \in Lists2 }
+  \cup { << "ttally", ps, ns >> : ps \in Lists2, ns \in Lists2s }
   \cup { << "ttally3", a, b, c, d >> : a \in TallyPts, b \in TallyPts, c \in { 1, 2, NN - 1 }, d \in { 0, 1 } }
   \cup { << "ttallyout", k >> : k \in 1..4 }
-  \cup { << "tflow", h1, h2, v1, v2, b1, 0 >> : h1 \in TinyHs, h2 \in TinyHs, v1 \in 0..(NN - 1), v2 \in 0..(NN - 1), b1 \in { 0, 1, NN - 1 } }
+  \cup UNION { { << "tflow", h1, h2, v1, v2, b1, 0 >> : h2 \in { h1, (h1 * 5) % NN }, v1 \in 0..(NN - 1), v2 \in 0..(NN - 1), b1 \in { 0, 1, NN - 1 } } : h1 \in TinyHs }
   \cup { << "tflow", h1, (h1 * 5) % NN, v1, v2, b1, 1 >> : h1 \in TinyHs, v1 \in 0..(NN - 1), v2 \in 0..(NN - 1), b1 \in { 0, 4 } }
-  \cup { << "tparse", w, pfx, x >> : w \in { 8, 10 }, pfx \in 0..255, x \in 1..(Len(TinyXs) + (IF Big THEN 6 ELSE NN - 1)) }
+  \cup { << "tparse", w, pfx, x >> : w \in { 8, 10 }, pfx \in 0..255, x \in 1..(Len(TinyXs) + (IF Big THEN 6 ELSE (NN - 1) \div 2)) }
   \cup { << "tbsum", l >> : l \in { << >> } \cup { << a >> : a \in 0..(NN + 2) } \cup { << a, b >> : a \in 0..(NN + 2), b \in 0..(NN + 2) }
                                  \cup { << a, b, c >> : a \in { 0, 1, NN - 1, NN }, b \in { 1, NN - 1, NN + 1 }, c \in { 0, 2, NN - 1 } } }
   \cup { << "tgbsum", v, r, rp >> : v \in { 0, 1, 5, NN - 1, NN }, r \in { 0, 1, 6, NN - 1, NN }, rp \in { 0, 1, 3, NN - 1, NN + 1 } }
@@ -305,8 +307,9 @@ ExpandTiny(c) ==
          TallyRec(MapC(<< c[2], c[3], c[4] >>), IF (c[2] + c[3] + c[4] + c[5]) % NN = 0 THEN << >> ELSE << TinyC((c[2] + c[3] + c[4] + c[5]) % NN) >>, 0)
     [] c[1] = "ttallyout" -> \* commitments that are curve points outside the subgroup
          LET o == PedSerCommit(OutsidePt)  no == PedSerCommit(PNeg(OutsidePt)) IN
-         CASE c[2] = 1 -> TallyRec(<< o >>, << o >>, 0) [] c[2] = 2 -> TallyRec(<< o, no >>, << >>, 0)
-           [] c[2] = 3 -> TallyRec(<< o, TinyC(1) >>, << TinyC(1) >>, 0) [] c[2] = 4 -> TallyRec(<< o, TinyC(1) >>, << PedSerCommit(PAdd(OutsidePt, TinyPt(1))) >>, 0)
+         ( CASE c[2] = 1 -> TallyRec(<< o >>, << o >>, 0) [] c[2] = 2 -> TallyRec(<< o, no >>, << >>, 0)
+             [] c[2] = 3 -> TallyRec(<< o, TinyC(1) >>, << TinyC(1) >>, 0)
+             [] c[2] = 4 -> TallyRec(<< o, TinyC(1) >>, << PedSerCommit(PAdd(OutsidePt, TinyPt(1))) >>, 0) )
     [] c[1] = "tflow" ->
          IF c[7] = 0
          THEN [ e |-> "PedFlow", in |-> [ gens |-> << TinyGen(c[2]), TinyGen(c[3]) >>, gi |-> << 0, 1 >>, values |-> << TV(c[4]), TV(c[5]) >>,
